@@ -83,6 +83,9 @@ func c18Instant(m *c10Mapping, v interface{}) time.Time {
 func init() {
 	register("c18", &Suite{Run: func(c M) M {
 		m := c10GetMap(false)
+		if tz := str(c["tz"]); tz != "" { // a history run on a statement with tz('<zone>'), bases around the repeated hour
+			m = c10GetTzMap(tz)
+		}
 		var text string
 		if t := list(c["toks"]); t != nil {
 			text = render(c10Resolve(t, m))
@@ -92,7 +95,12 @@ func init() {
 		o := M{"text": text, "now": strconv.FormatInt(m.now.UnixNano(), 10)}
 		var stmt influxql.Statement
 		var err error
-		if p := guard(func() { stmt, err = influxql.ParseStatement("SELECT v FROM m WHERE " + text) }); p != "" {
+		tzClause := ""
+		if m.tz != "" {
+			tzClause = " tz('" + m.tz + "')"
+			o["tz"] = m.tz
+		}
+		if p := guard(func() { stmt, err = influxql.ParseStatement("SELECT v FROM m WHERE " + text + tzClause) }); p != "" {
 			o["panic"] = p
 			return o
 		}
